@@ -1,9 +1,7 @@
 //go:build verif
 
-// C16 witness. The defect is NOT repaired in /repo yet, so the test is named
-// TestPendingC16_… and is not picked up by `bin/check C16` (which runs ^TestC16_). Once
-// notes/proposed-fixes/rate-credits-elapsed-time-once.diff (or an equivalent repair) is
-// in /repo, rename it to TestC16_BurstAfterIdle.
+// C16 witness: fails on the tree before "fix: the flood limiter credits elapsed time only
+// once", passes after it.
 package witness
 
 import (
@@ -18,12 +16,12 @@ import (
 	"github.com/lrstanley/girc"
 )
 
-// One goroutine, flood protection on. After 1.5 s without output it sends fourteen
-// 30-byte messages (cost 1.3 s each, 18.2 s in total) back to back. Whatever the
+// One goroutine, flood protection on. After 1.5 s without output it sends ten
+// 30-byte messages (cost 1.3 s each, 13 s in total) back to back. Whatever the
 // schedule, n lines may be on the wire t seconds after the last write before the burst
-// only if n * 1.3 s <= 8 s + t. The unrepaired limiter forgives the same idle period on
-// every call (lastWrite is stamped later, by sendLoop): all fourteen are written at once.
-func TestPendingC16_BurstAfterIdle(t *testing.T) {
+// only if n * 1.3 s <= 8 s + t. The unrepaired limiter forgave the same idle period on
+// every call (lastWrite is stamped later, by sendLoop): all ten were written at once.
+func TestC16_BurstAfterIdle(t *testing.T) {
 	c := girc.New(girc.Config{Server: "irc.test", Port: 6667, Nick: "me", User: "user", Name: "Real Name"})
 	in, out := net.Pipe()
 	var mu sync.Mutex
@@ -61,7 +59,7 @@ func TestPendingC16_BurstAfterIdle(t *testing.T) {
 		}
 		time.Sleep(1500*time.Millisecond - since + time.Millisecond)
 	}
-	const n = 14
+	const n = 10
 	cost := 1300 * time.Millisecond
 	for i := 0; i < n; i++ {
 		e := &girc.Event{Command: girc.PRIVMSG, Params: []string{"#w", fmt.Sprintf("m%03d", i) + strings.Repeat("x", 15)}}
